@@ -190,7 +190,7 @@ pub fn worker_main() {
                 };
                 if !want_text {
                     if let Outcome::Ok(s) = &outcome {
-                        outcome = Outcome::Ok(format!("#len={}", s.len()));
+                        outcome = Outcome::Ok(summarize(s));
                     }
                 }
                 Reply { outcome, micros: t0.elapsed().as_micros() as u64 }
@@ -201,6 +201,21 @@ pub fn worker_main() {
             break;
         }
     }
+}
+
+/// compact summary of an emitted file: length, 128-bit hash, names following the `struct` keyword
+pub fn summarize(text: &str) -> String {
+    let mut names: Vec<String> = vec![];
+    let mut it = text.split_whitespace().peekable();
+    while let Some(tok) = it.next() {
+        if tok == "struct" {
+            if let Some(n) = it.peek() {
+                let id: String = n.chars().take_while(|c| c.is_alphanumeric() || *c == '_').collect();
+                names.push(id);
+            }
+        }
+    }
+    serde_json::json!({"len": text.len(), "hash": crate::report::hash128(text.as_bytes()), "structs": names}).to_string()
 }
 
 struct Worker {
